@@ -344,6 +344,12 @@ def write_plotfile(path, AP, cfg, reg=None, values=None, mm_override=None):
                     box = L["boxes"][b - 1]
                     offs[b] = bf.tell()
                     bf.write(fab_header(box["lo"], box["hi"], nf))
+                    if box.get("sparse"):
+                        # a box of zeros written as a HOLE of the file (no token, no memory): gigabytes of payload for nothing
+                        bf.seek(box_cells(box) * nf * 8, 1)
+                        bf.truncate(bf.tell())
+                        mins[b], maxs[b] = [0.0] * nf, [0.0] * nf
+                        continue
                     mn, mx = [], []
                     for fi in range(1, nf + 1):
                         arr = component(AP, cfg, reg, lv, b, fi, values)
